@@ -221,6 +221,7 @@ theorem nodeOf_ok (g : Store) (kid : Elem) (oid : Option Nat) (props0 : Dict)
     | name s => rfl
     | null => rfl
   · cases h; exact ⟨rfl, fun id hid => by cases hid⟩
+  · cases h; exact ⟨rfl, fun id hid => by cases hid⟩
 
 theorem nodeOf_err (g : Store) (kid : Elem) (e : Err) (h : nodeOf g kid = .error e) : e ≠ .fuel := by
   unfold nodeOf at h
@@ -231,6 +232,7 @@ theorem nodeOf_err (g : Store) (kid : Elem) (e : Err) (h : nodeOf g kid = .error
       · cases h
       · cases h; decide
     · cases h; decide
+  · cases h
   · cases h
   · cases h
 
